@@ -83,6 +83,9 @@ def check(tier, seed, replay=None):
                   ([], ['(define "scale" (* .m @factor) (+ (def "factor" 2 @scale) (macro "factor" 5 @scale)))', '(+ (* .m 2) (* .m 5))',
                         '(define "scale" (* .m (@ "factor")) (+ (# "factor" 2 (@ "scale")) (define "factor" 5 @scale)))']),
                   (["--set=@pick=(get .o @key)", "--set=@key=\"a\""], ['(push [] @pick (define "key" "b" @pick) @pick)', '(push [] (get .o "a") (get .o "b") (get .o "a"))']),
+                  # the input context belongs to the record: the same before, at and behind --split-by, and inside functions
+                  (["--split-by=(push [] &index)"], [".", "&index", "(| 5 &index)", "(first (map (push [] 0) &index))", "&index-in-file"]),
+                  (["--split-by=(push [] &started-at-line-number)"], [".", "&started-at-line-number", "(| \"x\" &started-at-line-number)", "(? true &started-at-line-number 0)"]),
                   (["--set=@w=(concat :p .s)"], ['(concat (set "p" "<" @w) (set "p" ">" @w))', '(concat (concat "<" .s) (concat ">" .s))'])]
         for i in range(12 if quick else 400):
             extra, texts = rnd.choice(REBIND)
